@@ -135,8 +135,13 @@ class FlipMonitor:
         k = self.count
         self.count = k + 1
         if k in self.flips:
-            self.exc_mod.strict_mode = self.flips[k]
-            self.flips_fired += 1
+            if self.stack and code is not self.odxraise_code:
+                # inside odxraise (e.g. in a helper it calls): "the instant of the call" would be ambiguous,
+                # so the controller waits until odxraise has decided
+                self.flips[k + 1] = self.flips.pop(k)
+            else:
+                self.exc_mod.strict_mode = self.flips[k]
+                self.flips_fired += 1
         if code is self.odxraise_code:
             flag = bool(self.exc_mod.strict_mode)
             self.odxraise_calls[flag] += 1
@@ -546,11 +551,11 @@ def strict_failure_site(op: List[Any], sl: List[Any], exc_mod) -> str:
 
 
 def outcome_class(o: str) -> str:
-    """'ok' or '<exception type>@<raising site>' of a canonical outcome string."""
+    """'ok' or '<exception type>@<file of the raising site>' of a canonical outcome string."""
     j = json.loads(o)
     if j[0] == "ok":
         return "ok"
-    return f"{j[1].get('exc')}@{j[1].get('site')}"
+    return f"{j[1].get('exc')}@{str(j[1].get('site')).split(':')[0]}"
 
 
 def outcome_str(o: Tuple[str, Any]) -> str:
@@ -626,16 +631,22 @@ def execute(trace: Dict[str, Any]) -> Dict[str, Any]:
                         probes["outcome_differs_between_modes"] = probes.get("outcome_differs_between_modes", 0) + 1
                     # O1: lenient mode changes nothing valid
                     if st[0] == "ok" and ref[k][False] != ref[k][True]:
+                        strict_site_detail = None
                         shape = result_shape(op, st, sl)
                         sig1 = {"kind": op[0], "entry": op[2] if op[0] == "dec" else None,
                                 "lenient": sl[0] if sl[0] == "ok" else sl[1].get("exc"), "shape": shape}
                         if shape == "strict=gnr-fallback,lenient=service-decode":
                             # which downgraded error made the service-level decode succeed in lenient mode?
-                            sig1["strict_site"] = strict_failure_site(op, sl, exc_mod)
+                            site = strict_failure_site(op, sl, exc_mod)
+                            # the file is part of the signature (known findings are keyed by it: robust against
+                            # renaming/splitting functions); the full site goes into the detail
+                            sig1["strict_file"] = ",".join(sorted({x.split(":")[0] for x in site.split(",")}))
+                            strict_site_detail = site
                         violations.append({
                             "oracle": "C17.O1-lenient-changes-nothing-valid",
                             "sig": sig1,
-                            "detail": {"op": op, "strict": ref[k][True][:300], "lenient": ref[k][False][:300]}})
+                            "detail": {"op": op, "strict": ref[k][True][:300], "lenient": ref[k][False][:300],
+                                       "strict_site": strict_site_detail}})
                     # O4: an error raised by the strictness mechanism is downgraded
                     if st[0] == "exc" and st[1]["site"].endswith("[odxraise]") and sl[0] == "exc" and \
                             sl[1]["site"] == st[1]["site"]:
